@@ -42,7 +42,12 @@ func (p *Points) Uninstall() { verifhook.Set(nil) }
 // actions can be ordered against point hits.
 func (p *Points) NextSeq() int64 { return p.seq.Add(1) }
 
+// Progress counts point hits of the whole process; the per-bubble freeze
+// detector (checks.inBubble) uses it to tell a busy bubble from a frozen one.
+var Progress atomic.Int64
+
 func (p *Points) dispatch(name string, args ...any) {
+	Progress.Add(1)
 	ev := PointEvent{Seq: p.seq.Add(1), Name: name, Args: args, VT: time.Now()}
 	p.mu.Lock()
 	if p.recAll || p.record[name] {
